@@ -43,6 +43,11 @@ def get_file_metadata(path, hashes):
     except FileNotFoundError:
         exists = False
         opened = False
+    except ValueError:
+        # embedded null byte (a Manifest can carry it as \x00): no such
+        # path can exist
+        exists = False
+        opened = False
     except OSError as err:
         if err.errno in (errno.ENXIO, errno.EOPNOTSUPP):
             # ENXIO = unconnected device or socket
